@@ -9,9 +9,78 @@
 (* the real observation.  One verdict line (tag @V) per record.              *)
 EXTENDS Doc, Align, Json, IOUtils
 Recs == ndJsonDeserialize(IOEnv.TRACE_FILE)
-VARIABLE i
-Init == i = 1
-Hidden == {"q", "k", "z", "y"}
+VARIABLE cur
+Init == cur = 1
+Hidden == {"j", "k", "z", "y", "x"}
+Max(S) == CHOOSE x \in S : \A y \in S : y <= x
+SegIdx(map, lo, hi) == {j \in 1..Len(map) : lo <= map[j] /\ map[j] <= hi}
+SegTxt(plain, S) == [k \in 1..Cardinality(S) |-> plain[Min(S) + k - 1]]
+
+(***************************************************************************)
+(* C10: every inline formula is one placeholder of the language's inline   *)
+(* collection (+ its closing punctuation mark, + a blank where it starts / *)
+(* ends with maths space), successive formulas get successive placeholders *)
+(***************************************************************************)
+\* the characters that map into the formula: its non-space characters form one run  placeholder [+ punctuation];
+\* a blank stands directly before / after it where the formula starts / ends with maths space.  (White space of an
+\* enclosing construct - flow separators, the full stop of a heading - may legitimately map to the formula's delimiters.)
+RECURSIVE C10Walk(_, _, _, _, _, _)
+C10Walk(fml, k, plain, map, lk, prev) ==
+  IF k > Len(fml) THEN "ok"
+  ELSE LET f == fml[k]
+           S == SegIdx(map, f.lo, f.hi)
+           T == {j \in S : ~IsSpace(plain[j])} IN
+       IF T = {} THEN "formula-" \o ToString(k) \o "-left-nothing"
+       ELSE IF T # Min(T)..Max(T) THEN "formula-" \o ToString(k) \o "-text-not-contiguous"
+       ELSE LET txt == SegTxt(plain, T)
+                n == Len(txt) - (IF f.punct # "" THEN 1 ELSE 0)
+                core == IF n >= 1 /\ (f.punct = "" \/ txt[Len(txt)] = f.punct) THEN SubSeq(txt, 1, n) ELSE <<"?">>
+                ix == IndexIn(InlineColl(lk), core)
+                a == Min(T) - 1
+                b == Max(T) + 1 IN
+            IF ix = 0 THEN "formula-" \o ToString(k) \o "-not-one-placeholder-with-its-punctuation"
+            ELSE IF f.sp1 /\ ~(a >= 1 /\ a \in S /\ plain[a] = " ") THEN "formula-" \o ToString(k) \o "-blank-before-missing"
+            ELSE IF f.sp2 /\ ~(b <= Len(plain) /\ b \in S /\ plain[b] = " ") THEN "formula-" \o ToString(k) \o "-blank-after-missing"
+            ELSE IF prev # 0 /\ ix # (prev % 6) + 1 THEN "formula-" \o ToString(k) \o "-placeholder-not-successor-of-previous"
+            ELSE C10Walk(fml, k+1, plain, map, lk, ix)
+
+(***************************************************************************)
+(* C11: a displayed equation is rendered by the documented scheme          *)
+(***************************************************************************)
+StartsWith(txt, j, w) == j + Len(w) - 1 <= Len(txt) /\ \A i \in 1..Len(w) : txt[j+i-1] = w[i]
+\* match pieces against the text of the equation; base = 0 or (index of the placeholder that stands for relative number 0)
+RECURSIVE PMatch(_, _, _, _, _, _, _, _)
+PMatch(ps, i, txt, pos, j, lk, base, e) ==
+  IF i > Len(ps) THEN (IF j = Len(txt) + 1 THEN [v |-> "ok", base |-> base] ELSE [v |-> "equation-" \o ToString(e) \o "-extra-text@" \o ToString(j), base |-> base])
+  ELSE LET p == ps[i] IN
+    IF p.t \in {"lit", "cp"} THEN
+       IF j > Len(txt) \/ txt[j] # p.ch THEN [v |-> "equation-" \o ToString(e) \o "-expected-" \o p.ch \o "@" \o ToString(j), base |-> base]
+       ELSE IF p.t = "cp" /\ pos[j] # p.p THEN [v |-> "equation-" \o ToString(e) \o "-text-part-position@" \o ToString(j), base |-> base]
+       ELSE PMatch(ps, i+1, txt, pos, j+1, lk, base, e)
+    ELSE IF p.t = "op" THEN
+       LET w == OpWord(lk, p.ch) IN
+       IF ~StartsWith(txt, j, w) THEN [v |-> "equation-" \o ToString(e) \o "-operator-word-missing@" \o ToString(j), base |-> base]
+       ELSE PMatch(ps, i+1, txt, pos, j + Len(w), lk, base, e)
+    ELSE \* placeholder
+       LET ix == IF j + 4 <= Len(txt) THEN IndexIn(DisplayColl(lk), SubSeq(txt, j, j+4)) ELSE 0 IN
+       IF ix = 0 THEN [v |-> "equation-" \o ToString(e) \o "-placeholder-missing@" \o ToString(j), base |-> base]
+       ELSE IF p.t = "phany" THEN PMatch(ps, i+1, txt, pos, j+5, lk, base, e)
+       ELSE LET b == IF base = 0 THEN ((ix + 600 - p.d - 1) % 6) + 1 ELSE base      \* index that relative number 0 would have
+                want == ((b - 1 + p.d) % 6) + 1 IN
+            IF ix # want THEN [v |-> "equation-" \o ToString(e) \o "-placeholder-rotation@" \o ToString(j), base |-> b]
+            ELSE PMatch(ps, i+1, txt, pos, j+5, lk, b, e)
+RECURSIVE C11Walk(_, _, _, _, _, _, _)
+C11Walk(eqs, e, plain, map, lk, simple, base) ==
+  IF e > Len(eqs) THEN "ok"
+  ELSE LET q == eqs[e]
+           S == SegIdx(map, q.lo, q.hi) IN
+       IF S = {} THEN "equation-" \o ToString(e) \o "-left-nothing"
+       ELSE IF S # Min(S)..Max(S) THEN "equation-" \o ToString(e) \o "-text-not-contiguous"
+       ELSE LET txt == SegTxt(plain, S)
+                pos == [k \in 1..Cardinality(S) |-> map[Min(S) + k - 1]]
+                r == PMatch(IF simple THEN q.simple ELSE q.pieces, 1, txt, pos, 1, lk, base, e) IN
+            IF r.v # "ok" THEN r.v ELSE C11Walk(eqs, e+1, plain, map, lk, simple, r.base)
+
 Markup == {"\\", "{", "}", "$"}
 \* C09, supply routes: the first r.ndef symbols (definitions) were not part of the text given to the filter
 \* but supplied through --defs or a file read by \LTinput; r.prefix is what stands in their place.
@@ -30,8 +99,10 @@ Judge(r) ==
            allowed == {exp.items[m].ch : m \in {m \in 1..Len(exp.items) : exp.items[m].t \in {"c","f"}}}
            lk == Leak(r.plain, (Hidden \cup Markup) \ allowed) IN
        [id |-> r.id, bind |-> "ok", feat |-> exp.feat, c01 |-> v.c01, c02 |-> v.c02,
-        c03 |-> IF v.c03 = "ok" /\ lk # "ok" THEN lk ELSE v.c03, c04 |-> v.c04, c05 |-> v.c05]
-Next == i <= Len(Recs) /\ i' = i + 1 /\ PrintT("@V" \o ToJson(Judge(Recs[i])))
-Spec == Init /\ [][Next]_i
-Done == i = Len(Recs) + 1
+        c03 |-> IF v.c03 = "ok" /\ lk # "ok" THEN lk ELSE v.c03, c04 |-> v.c04, c05 |-> v.c05,
+        c10 |-> IF v.c01 # "ok" THEN "skipped" ELSE C10Walk(exp.fml, 1, r.plain, r.map, LangKey(r.lang), 0),
+        c11 |-> IF v.c01 # "ok" THEN "skipped" ELSE C11Walk(exp.eqs, 1, r.plain, r.map, LangKey(r.lang), r.seqs, 0)]
+Next == cur <= Len(Recs) /\ cur' = cur + 1 /\ PrintT("@V" \o ToJson(Judge(Recs[cur])))
+Spec == Init /\ [][Next]_cur
+Done == cur = Len(Recs) + 1
 =============================================================================
